@@ -21,6 +21,7 @@
   (decompression happens first; the bytes change, the decoded message does not).
 -/
 import DnsModel.Lemmas.InsertRec
+import DnsModel.Tie.Counts
 import DnsModel.Lemmas.SetName
 namespace Dns.C10
 open Dns Res
@@ -199,5 +200,16 @@ theorem set_name_too_large {pp : PP} (P : PlainObj pp) (sec : Section) (hs : sec
     (hbig : pp.packet.length + (labSum owner' + 1) - (ne - (P.start sec + ps1.flatten.length)) > 65535) :
     setRawName pp c (encLabels owner' ++ [0]) = .ok { pp := { pp with cached := none }, cur := c, result := some .packetTooLarge } :=
   P.set_name_too_large sec hs hsplit c hr hoff hne owner' hgo' hgrow hbig
+
+
+/-! ### Tie to the current source text: the record-count bookkeeping every insertion and deletion goes through
+(`rrcount_inc`, `rrcount_dec`, `insertion_offset` of parsed_packet.rs with the `set_*count` writers of dns_sector.rs,
+re-translated on every run: `Generated/TrCounts.lean`, `Tie/Counts.lean`) -/
+theorem source_counts_tie (pp : PP) (s : Section) :
+    (Tr.Counts.rrcount_inc pp.packet s >>= fun r => Res.ok r.2) = (rrcountInc pp s >>= Tie.incResult) ∧
+    Tr.Counts.rrcount_dec pp.packet s = (rrcountDec pp s >>= fun r => Res.ok (r.2, r.1.packet)) ∧
+    Tr.Counts.insertion_offset pp.packet pp.offsetAnswers pp.offsetNameservers pp.offsetAdditional s
+      = insertionOffset pp s :=
+  ⟨Tie.rrcount_inc_eq pp s, Tie.rrcount_dec_eq pp s, Tie.insertion_offset_eq pp s⟩
 
 end Dns.C10
